@@ -145,6 +145,7 @@ def run_property(prop, tier, seed, jobs=None, only=None, verbose=False):
             "cvc5_second_opinion": {k: sum((r.get("extra") or {}).get(k, 0) for r in results)
                                     for k in ("cvc5_agree", "cvc5_no_opinion", "cvc5_disagree")} if tier == "thorough" else "thorough tier only",
             "static_analysis_sites": {r["family"]: r["extra"] for r in results if (r.get("extra") or {}).get("sites")},
+            "lean_lemmas": __import__("pyvc.lemmas", fromlist=["status"]).status(),
             "arity_bounds": {"outer_K": 4 if tier == "thorough" else 3, "nested_J": 3 if tier == "thorough" else 2},
             "source_sha256": prog.source_hashes(),
             "samples": samples,
@@ -207,6 +208,9 @@ def main(argv=None):
     if a.what == "replay":
         from . import replay
         return replay.run_file(a.path)
+    if a.what == "lemmas":
+        from . import lemmas
+        return lemmas.main()
     if a.what == "selftest":
         from . import selftest
         return selftest.main(a.only)
